@@ -415,8 +415,13 @@ static void structure_eval(const Case &c, bool valid, Result &R, Acc &A) {
     ++A.invalid_cases;
   const std::string cls = nesting_class(c.keys);
   YAMLDictionary d1;
+  // the string streams are reused: constructing one per case makes all threads
+  // contend for the reference count of the global locale
+  static thread_local std::istringstream in, in2;
+  static thread_local std::ostringstream o1, o2;
   const bool ok1 = c20::guarded([&] {
-    std::istringstream in(text);
+    in.clear();
+    in.str(text);
     d1 = YAMLDictionary(in);
   });
   if (g_verbose)
@@ -441,19 +446,22 @@ static void structure_eval(const Case &c, bool valid, Result &R, Acc &A) {
       ++A.invalid_flat;
     else
       ++A.invalid_other;
-    if (g_sampled_invalid.fetch_add(1) < 2)
+    if (g_sampled_invalid.load(std::memory_order_relaxed) < 2 && g_sampled_invalid.fetch_add(1) < 2)
       R.sample(fmt("{\"not_prefix_free_text\": \"%s\", \"parsed\": \"%s\"}", json_escape(text).c_str(),
                    json_escape(dict_str(d1._dictionary)).c_str()));
   }
   std::string p1, p2;
   YAMLDictionary d2;
   const bool ok2 = c20::guarded([&] {
-    std::ostringstream o1;
+    o1.clear();
+    o1.str("");
     d1.print_contents(o1);
     p1 = o1.str();
-    std::istringstream in2(p1);
+    in2.clear();
+    in2.str(p1);
     d2 = YAMLDictionary(in2);
-    std::ostringstream o2;
+    o2.clear();
+    o2.str("");
     d2.print_contents(o2);
     p2 = o2.str();
   });
@@ -496,7 +504,7 @@ static void structure_eval(const Case &c, bool valid, Result &R, Acc &A) {
     if (lines > groups.size() + d1._dictionary.size())
       ++A.redundant_header_prints;
   }
-  if (valid && nested && g_sampled.fetch_add(1) < 2)
+  if (valid && nested && g_sampled.load(std::memory_order_relaxed) < 2 && g_sampled.fetch_add(1) < 2)
     R.sample(fmt("{\"text\": \"%s\", \"printed\": \"%s\"}", json_escape(text).c_str(), json_escape(p1).c_str()));
 }
 
@@ -671,20 +679,49 @@ static void dump_eval(const Case &c, unsigned mask, Result &R, Acc &A) {
 }
 
 // ------------------------------------------------------------- enumeration
+struct Pass {
+  bool all_orders;           // every order of the keys (else only the enumeration order)
+  std::vector< int > styles; // indentation styles
+  std::vector< int > shares; // header sharing modes
+  bool full_kinds;           // full product over the 4 main kinds
+  int rotations;             // number of rotating assignments over all 17 kinds
+};
 struct Family {
   std::string label;
   std::vector< std::string > names;
   int maxdepth;
   int minkeys, maxkeys;
-  std::vector< int > styles;
-  std::vector< int > shares;
-  bool all_orders;
-  bool full_kinds;   // full product over the 4 main kinds
-  int rotations;     // number of rotating assignments over all kinds
-  bool dump;         // also run the used-values dump test (all present masks)
-  bool dump_full;    // dump test over the full main-kind product (else rotations only)
-  bool invalid_sets; // also run sets that are not prefix free
+  std::vector< Pass > passes; // parse/print/parse test
+  bool dump_full;             // used-values dump test over the full main-kind product ...
+  bool dump_full_all_masks;   // ... x all present masks (else only all keys present / all keys defaulted)
+  int dump_rotations;         // ... and over this many rotating assignments x all present masks
+  bool invalid_sets;          // also run sets that are not prefix free (first pass: orders, shares, first style)
 };
+
+static std::vector< std::vector< int > > kind_assignments(int k, size_t is, bool full, int rotations) {
+  std::vector< std::vector< int > > assigns;
+  if (full) {
+    long tot = 1;
+    for (int i = 0; i < k; ++i)
+      tot *= NMAIN;
+    for (long m = 0; m < tot; ++m) {
+      std::vector< int > a;
+      long x = m;
+      for (int i = 0; i < k; ++i) {
+        a.push_back((int)(x % NMAIN));
+        x /= NMAIN;
+      }
+      assigns.push_back(a);
+    }
+  }
+  for (int r = 0; r < rotations; ++r) {
+    std::vector< int > a;
+    for (int i = 0; i < k; ++i)
+      a.push_back((int)((is * 7 + i * 3 + r * 5) % NKINDS));
+    assigns.push_back(a);
+  }
+  return assigns;
+}
 
 static void run_family(const Family &F, const Args &A, Result &R, Acc &total, std::map< std::string, double > &info) {
   std::vector< Path > paths;
@@ -756,65 +793,49 @@ static void run_family(const Family &F, const Args &A, Result &R, Acc &total, st
       if (!valid && !F.invalid_sets)
         continue;
       (valid ? nvalid : ninvalid).fetch_add(1);
-      // kind assignments
-      std::vector< std::vector< int > > assigns;
-      if (valid && F.full_kinds) {
-        long tot = 1;
+      for (size_t ip = 0; ip < F.passes.size(); ++ip) {
+        const Pass &PS = F.passes[ip];
+        if (!valid && ip > 0)
+          break;
+        const std::vector< std::vector< int > > assigns =
+            valid ? kind_assignments(k, is, PS.full_kinds, PS.rotations) : kind_assignments(k, is, false, 1);
+        std::vector< int > perm(k);
         for (int i = 0; i < k; ++i)
-          tot *= NMAIN;
-        for (long m = 0; m < tot; ++m) {
-          std::vector< int > a;
-          long x = m;
-          for (int i = 0; i < k; ++i) {
-            a.push_back((int)(x % NMAIN));
-            x /= NMAIN;
-          }
-          assigns.push_back(a);
-        }
-      }
-      const size_t nfull = assigns.size();
-      const int nrot = valid ? F.rotations : 1;
-      for (int r = 0; r < nrot; ++r) {
-        std::vector< int > a;
-        for (int i = 0; i < k; ++i)
-          a.push_back((int)((is * 7 + i * 3 + r * 5) % NKINDS));
-        assigns.push_back(a);
-      }
-      std::vector< int > perm(k);
-      for (int i = 0; i < k; ++i)
-        perm[i] = i;
-      do {
-        for (size_t ia = 0; ia < assigns.size(); ++ia) {
-          Case c;
-          for (int i = 0; i < k; ++i) {
-            c.keys.push_back(paths[S[perm[i] + 1]]);
-            c.kinds.push_back(assigns[ia][perm[i]]);
-            c.pos.push_back(perm[i]);
-          }
-          if (valid) {
-            for (int st : F.styles)
-              for (int sh : F.shares) {
-                c.style = st;
+          perm[i] = i;
+        do {
+          for (size_t ia = 0; ia < assigns.size(); ++ia) {
+            Case c;
+            for (int i = 0; i < k; ++i) {
+              c.keys.push_back(paths[S[perm[i] + 1]]);
+              c.kinds.push_back(assigns[ia][perm[i]]);
+              c.pos.push_back(perm[i]);
+            }
+            if (valid) {
+              for (int st : PS.styles)
+                for (int sh : PS.shares) {
+                  c.style = st;
+                  c.share = sh;
+                  structure_eval(c, true, R, acc);
+                }
+            } else {
+              for (int sh : PS.shares) {
+                c.style = PS.styles[0];
                 c.share = sh;
-                structure_eval(c, true, R, acc);
+                structure_eval(c, false, R, acc);
               }
-          } else {
-            for (int sh : F.shares) {
-              c.style = F.styles[0];
-              c.share = sh;
+              // form B: children directly under the valued key
+              c.share = SH_FULL;
+              c.formB = true;
               structure_eval(c, false, R, acc);
             }
-            // form B: children directly under the valued key
-            c.share = SH_FULL;
-            c.formB = true;
-            structure_eval(c, false, R, acc);
           }
-        }
-        if (!F.all_orders)
-          break;
-      } while (std::next_permutation(perm.begin(), perm.end()));
-      if (valid && F.dump) {
-        for (size_t ia = (F.dump_full ? 0 : nfull); ia < assigns.size(); ++ia) {
+          if (!PS.all_orders)
+            break;
+        } while (std::next_permutation(perm.begin(), perm.end()));
+      }
+      if (valid && (F.dump_full || F.dump_rotations > 0)) {
+        const std::vector< std::vector< int > > assigns = kind_assignments(k, is, F.dump_full, F.dump_rotations);
+        for (size_t ia = 0; ia < assigns.size(); ++ia) {
           Case c;
           for (int i = 0; i < k; ++i) {
             c.keys.push_back(paths[S[i + 1]]);
@@ -823,8 +844,10 @@ static void run_family(const Family &F, const Args &A, Result &R, Acc &total, st
           }
           c.style = ST_2;
           c.share = SH_FULL;
+          const bool is_full = F.dump_full && ia + F.dump_rotations < assigns.size();
           for (unsigned mask = 0; mask < (1u << k); ++mask)
-            dump_eval(c, mask, R, acc);
+            if (!is_full || F.dump_full_all_masks || mask == 0 || mask == (1u << k) - 1)
+              dump_eval(c, mask, R, acc);
         }
       }
       done.fetch_add(1);
@@ -909,17 +932,61 @@ int main(int argc, char **argv) {
   const std::vector< int > all_styles = {ST_2, ST_1, ST_4, ST_TAB, ST_VARY, ST_COSMETIC};
   const std::vector< int > all_shares = {SH_FULL, SH_NONE, SH_MINUS1};
   std::vector< Family > fams;
+  const std::vector< int > two_styles = {ST_2, ST_VARY};
   if (!A.thorough()) {
-    fams.push_back({"ab-depth4-le3keys", {"a", "b"}, 4, 1, 3, {ST_2, ST_VARY, ST_COSMETIC}, {SH_FULL, SH_NONE}, true,
-                    true, 1, true, true, true});
+    fams.push_back({"ab-depth4-le3keys",
+                    {"a", "b"},
+                    4,
+                    1,
+                    3,
+                    {{true, {ST_2}, {SH_FULL}, true, 0}, {true, {ST_2, ST_VARY, ST_COSMETIC}, {SH_FULL, SH_NONE}, false, 1}},
+                    true,
+                    false,
+                    1,
+                    true});
   } else {
-    fams.push_back({"ab-depth4-le3keys", {"a", "b"}, 4, 1, 3, all_styles, all_shares, true, true, 3, true, true, true});
-    fams.push_back({"ab-depth5-le3keys", {"a", "b"}, 5, 1, 3, all_styles, all_shares, true, false, 2, true, false, true});
-    fams.push_back({"ab-depth5-4keys", {"a", "b"}, 5, 4, 4, {ST_2, ST_VARY}, all_shares, true, false, 1, false, false, false});
-    fams.push_back({"a,b,'a b'-depth4-le3keys", {"a", "b", "a b"}, 4, 1, 3, all_styles, all_shares, true, false, 1,
-                    true, false, true});
-    fams.push_back({"a,b,ab-depth4-le3keys", {"a", "b", "ab"}, 4, 1, 3, {ST_2, ST_VARY}, all_shares, true, false, 1,
-                    false, false, true});
+    fams.push_back({"ab-depth4-le3keys",
+                    {"a", "b"},
+                    4,
+                    1,
+                    3,
+                    {{true, two_styles, all_shares, true, 0}, {true, all_styles, all_shares, false, 3}},
+                    true,
+                    true,
+                    3,
+                    true});
+    fams.push_back(
+        {"ab-depth5-le3keys", {"a", "b"}, 5, 1, 3, {{true, all_styles, all_shares, false, 1}}, false, false, 1, true});
+    fams.push_back({"ab-depth5-4keys",
+                    {"a", "b"},
+                    5,
+                    4,
+                    4,
+                    {{true, {ST_2}, {SH_FULL}, false, 1}, {false, all_styles, all_shares, false, 1}},
+                    false,
+                    false,
+                    0,
+                    false});
+    fams.push_back({"a,b,'a b'-depth4-le3keys",
+                    {"a", "b", "a b"},
+                    4,
+                    1,
+                    3,
+                    {{true, {ST_2, ST_VARY, ST_COSMETIC}, {SH_FULL, SH_NONE}, false, 1}},
+                    false,
+                    false,
+                    1,
+                    true});
+    fams.push_back({"a,b,ab-depth4-le3keys",
+                    {"a", "b", "ab"},
+                    4,
+                    1,
+                    3,
+                    {{true, {ST_2}, {SH_FULL, SH_NONE}, false, 1}},
+                    false,
+                    false,
+                    0,
+                    true});
   }
   Acc total;
   std::map< std::string, double > info;
